@@ -374,6 +374,13 @@ class CodeGen:
         cleanup_args = list(self.pop(bubble))
         assert not cleanup_args, 'Should not require any instructions to be clean up arguments'
         assert self.stack == StackPoint(0)
+        # The overflow guards compare unsigned words: a frame that needs
+        # more bytes than a word can count would wrap around and pass.
+        if self.checkpoints.max_vals and self.checkpoints.max_vals[-1] > self.max_unsigned:
+            raise CodeGenError(
+                f'Function needs too much stack space ({self.checkpoints.max_vals[-1]} bytes)',
+                func.span
+            )
         self.checkpoints.pop_level()
 
     def gen_block(self, block: ast.Block):
@@ -740,10 +747,12 @@ class CodeGen:
                 if expr.type.const and all(isinstance(v, ast.PrimitiveValue) for v in expr.values):
                     return self.vacpack(self.make_global(expr, const=True))
 
-                # TODO: we may need to ensure length is not TOO long,
-                #  depending on how the stack overflow detection works.
                 length = len(expr.values)
                 el_type = expr.type.el_type
+                # Same limit as for global arrays: the length must fit
+                # in a (signed) word, and so must the size in bytes.
+                if length > self.max_length(el_type):
+                    raise CodeGenError(f'Array is too large (length: {length})', expr.span)
                 length_bubble = self.reserve_word()
                 yield from length_bubble.value.set(asm.IntLiteral(length))
                 length_bubble = length_bubble.with_value(asm.IntLiteral(length))
